@@ -27,13 +27,13 @@ type tgFile struct {
 	Lines []tgLine `json:"lines"`
 }
 
-var tgClasses = []string{"test", "failing", "oneline", "bracecomment", "failingoneline", "underscore", "unicode", "disabled", "helper", "method", "captest", "commented", "blockline", "indented", "onelinecomment"}
-var tgKinds = []string{"src", "testish", "gotest", "exttest", "gold", "backup"}
+var tgClasses = []string{"test", "failing", "oneline", "bracecomment", "failingoneline", "underscore", "unicode", "bigcomment", "disabled", "helper", "method", "captest", "commented", "blockline", "indented", "onelinecomment"}
+var tgKinds = []string{"src", "testish", "gotest", "exttest", "gold", "backup", "symsrc"}
 
 func tgFileName(kind string, i int) string {
 	base := string(rune('a'+i)) + "file"
 	switch kind {
-	case "src":
+	case "src", "symsrc":
 		return base + ".go"
 	case "testish":
 		return base + "_tests.go"
@@ -82,6 +82,11 @@ func tgRender(f tgFile, pkg string) string {
 			fmt.Fprintf(&sb, "func test_%s() bool {\n\treturn true\n}\n\n", l.N)
 		case "unicode":
 			fmt.Fprintf(&sb, "func testÄ%s() bool {\n\treturn true\n}\n\n", l.N)
+		case "bigcomment":
+			for k := 0; k < 70; k++ {
+				fmt.Fprintf(&sb, "// padding %s line %02d: a long comment line so that the file is several buffers long ....\n", l.N, k)
+			}
+			sb.WriteString("\n")
 		case "disabled":
 			fmt.Fprintf(&sb, "func disabled_test%s() bool {\n\treturn true\n}\n\n", l.N)
 		case "helper":
@@ -134,6 +139,10 @@ func C18(c *ev.Ctx) {
 		cases = append(cases, []tgFile{{Kind: "exttest", Name: tgFileName("exttest", 0), Lines: []tgLine{{cl, name()}}},
 			{Kind: "src", Name: tgFileName("src", 1), Lines: []tgLine{{"test", name()}, {"failing", name()}, {"oneline", name()}}}})
 	}
+	// files longer than a read buffer: tests before, between and after the padding
+	cases = append(cases, []tgFile{{Kind: "src", Name: tgFileName("src", 0), Lines: []tgLine{{"test", name()}, {"failing", name()}, {"bigcomment", name()}, {"test", name()}, {"bigcomment", name()}, {"failing", name()}, {"oneline", name()}}}})
+	cases = append(cases, []tgFile{{Kind: "src", Name: tgFileName("src", 0), Lines: []tgLine{{"bigcomment", name()}, {"test", name()}}},
+		{Kind: "src", Name: tgFileName("src", 1), Lines: []tgLine{{"test", name()}, {"bigcomment", name()}, {"bigcomment", name()}, {"failing", name()}}}})
 	// random directories: 1-3 files, 0-4 lines each
 	for i := 0; i < c.Pick(60, 6000); i++ {
 		var d []tgFile
@@ -210,6 +219,14 @@ func C18(c *ev.Ctx) {
 		_ = os.RemoveAll(filepath.Dir(root))
 		_ = os.MkdirAll(root, 0755)
 		for _, f := range d {
+			if f.Kind == "symsrc" {
+				// the source lives elsewhere; the package directory holds a symbolic link to it
+				sh := filepath.Join(filepath.Dir(root), "shared")
+				_ = os.MkdirAll(sh, 0755)
+				_ = os.WriteFile(filepath.Join(sh, f.Name), []byte(tgRender(f, "semantics")), 0644)
+				_ = os.Symlink(filepath.Join(sh, f.Name), filepath.Join(root, f.Name))
+				continue
+			}
 			_ = os.WriteFile(filepath.Join(root, f.Name), []byte(tgRender(f, "semantics")), 0644)
 		}
 		run := func(mode string) (string, error) {
